@@ -26,6 +26,7 @@ with directives:
   //@   open / closed / verbatim        spec-visibility helpers: verbatim = copy item unchanged
   //@ end
   //@ canary <fn>: <clause>             extra (false) ensures clause; the canary file must FAIL
+  //@ applies_if: <path> :: <anchor> :: `TEXT`   shape-specific unit: skipped unless the item contains TEXT
 """
 import json
 import os
@@ -770,6 +771,21 @@ def run_unit(prop, unit_path, tier, seed=0, repo=REPO, _auto_consts=()):
     failures = []
     undecided = []
     auto_consts = list(_auto_consts)
+    # `//@ applies_if: <repo path> :: <anchor> :: `TEXT``: a SHAPE-SPECIFIC unit.  It is generated only while the named item
+    # textually contains TEXT (e.g. the call that a repaired defect used to make); otherwise it is recorded as skipped with zero
+    # obligations.  Used to keep the unit that REPORTED a since-repaired finding alive, so that a revert of the repair is
+    # reported as a violation again instead of ending undecided in the unit written for the repaired shape.
+    for ml in re.finditer(r"^\s*//@ applies_if:\s*(\S+) :: (.+?) :: `(.*)`\s*$", open(unit_path).read(), re.M):
+        try:
+            src = Source(os.path.join(repo, ml.group(1)))
+            it = src.find(ml.group(2).strip())
+            present = ml.group(3) in src.text(it)
+        except (LostAnchor, OSError):
+            present = False
+        if not present:
+            u.kind = "skipped"
+            u.extra["skipped"] = "shape-specific unit: `%s` does not occur in %s :: %s on this tree" % (ml.group(3), ml.group(1), ml.group(2).strip())
+            return u, failures, undecided
     try:
         gen, meta, records, linemap = generate(unit_path, repo, None, tuple(auto_consts))
     except (LostAnchor, ValueError) as e:
